@@ -110,6 +110,22 @@ def analyse(prog, f):
     for n, v in lalloc.items():
         if len(v) == 1 and list(v)[0] != "?":
             alias[n] = (list(v)[0], None, n)
+    # record fields allocated in this function with a dimension as size (not in the tables): within this function they are
+    # arrays of that dimension's space, so an initialisation loop over another space leaves part of them uninitialised
+    falloc = collections.defaultdict(set)
+    for b, i, e in f.elements():
+        if e[0] != "A" or e[1][1] != "=":
+            continue
+        lhs = strip(e[1][2])
+        if not (isinstance(lhs, list) and lhs and lhs[0] == "m"):
+            continue
+        if arr_info(lhs, {})[0] is not None:
+            continue
+        for nd in walk(e[1][3]):
+            if nd[0] == "c" and callee(nd) in ("ILLutil_allocrus", "malloc", "EGmalloc"):
+                dims = set().union(*[mentioned_dims(a) for a in nd[3]]) if nd[3] else set()
+                falloc[lhs[2]].add(list(dims)[0] if len(dims) == 1 else "?")
+    falloc = {k: list(v)[0] for k, v in falloc.items() if len(v) == 1 and list(v)[0] != "?"}
     # dimension-valued locals
     dimv = collections.defaultdict(set)
     for b, i, e in f.elements():
@@ -282,6 +298,10 @@ def analyse(prog, f):
         if e[0] != "S":
             continue
         c, v, fld = arr_info(e[1][1], alias)
+        if c is None:
+            bt = strip(e[1][1])
+            if isinstance(bt, list) and bt and bt[0] == "m" and bt[2] in falloc:
+                c, fld = falloc[bt[2]], bt[2].split("::")[1] + " (allocated here)"
         if c is None:
             continue
         cur_block[0] = b["id"]
